@@ -74,15 +74,8 @@ partial def parseTables (ts : List String) (t : Tables) : Option Tables :=
     parseTables rest { t with nsecs := (← qi.toNat?, ← m.toNat?, ← am.toNat?, parseProofCh c) :: t.nsecs }
   | _ => none
 
-def findIdx (es : List (Query × UpOut)) (q : Query) (i : Nat := 0) : Option (Nat × UpOut) :=
-  match es with
-  | [] => none
-  | (q', o) :: rest => if q' == q then some (i, o) else findIdx rest q (i + 1)
-
 def mkEnv (es : List (Query × UpOut)) (t : Tables) : Env where
-  up q := match findIdx es q with
-    | some (i, o) => ⟨i, o⟩
-    | none => ⟨0, .missing⟩
+  up := traceUp es
   anchor k := t.anchors.contains k
   covers d k := t.covers.contains (d, k)
   sigRes k s g := match t.sigs.find? (fun e => e.1 == k && e.2.1 == s && e.2.2.1 == g) with
